@@ -37,7 +37,8 @@ def gen_case(rnd):
     i = rnd.randrange(n)
     # create faults in every error kind that needs no privileges (EISDIR, ENOENT, ELOOP, ENOTDIR, ENAMETOOLONG, EACCES/EPERM on /proc)
     fault = rnd.choice(['devfull', 'dir', 'none', 'outdir', 'fsize', 'fsize'] + CREATE_FAULTS)
-    c = dict(names=names, big=big, idx=i, fault=fault)
+    # the length of the paths is part of the environment: an output directory whose path alone is longer than 256 / 1024 bytes
+    c = dict(names=names, big=big, idx=i, fault=fault, longout=rnd.choice([0, 0, 0, 2, 3, 9]))
     if fault == 'fsize':
         # a byte budget per file: the victim is the only large unit, the budget lies between the small services and the victim
         c['big'] = {nm: nm == names[i] for nm in names}
@@ -64,7 +65,7 @@ def run(case_rnd):
     for nm in case['names']:
         with open(os.path.join(base, 'src', nm + '.container'), 'w') as f:
             f.write(unit_text(rnd, case['big'][nm]))
-    out = os.path.join(base, 'out')
+    out = os.path.join(base, *(['d' * 110 + str(k) for k in range(case.get('longout', 0))]), 'out')
     victim = case['names'][case['idx']]
     if case['fault'] == 'outdir':
         with open(os.path.join(base, 'blocker'), 'w') as f:
@@ -120,7 +121,7 @@ def correspond(ctx):
     for (c, o, victim), line, b in zip(metas, lines, mo):
         res.corr_ops += 1
         res.corr_by_op['gen_write'] = res.corr_by_op.get('gen_write', 0) + 1
-        impl_ok = not any('ERROR' in l and victim in l for l in o['stderr'].split('\n'))
+        impl_ok = not any('ERROR' in l and f'/{victim}' in l for l in o['stderr'].split('\n'))
         res.corr_nontrivial.add(line)
         if b != ('ok true' if impl_ok else 'ok false'):
             if len(res.corr_disagreements) < 10:
@@ -161,7 +162,7 @@ def oracle(ctx):
             if o['snap']:
                 fails.append('something was written although the output directory could not be created')
         elif c['fault'] in ['devfull', 'dir', 'fsize'] + CREATE_FAULTS:
-            if not any('ERROR' in l and victim in l for l in o['stderr'].split('\n')):
+            if not any('ERROR' in l and f'/{victim}' in l for l in o['stderr'].split('\n')):
                 fails.append(f'the failed write of {victim} is not logged with its path: {e2e.error_lines(o["stderr"])}')
             if f'default.target.wants/{victim}' in o['snap']:
                 fails.append(f'{victim} could not be written but was enabled')
